@@ -316,6 +316,104 @@ def guard_search(ck, res):
         ck.violation(what, {"model_state": f, "theorem": "C01_source_guards_are_model_guards"}, key={"kind": "guard", "sim": f["sim"], "guard": f["guard"]})
 
 
+def source_side(ck, d):
+    """correspondence of the source-split model (C01_SourceDefs.v) with the real DistributedPhotonSource + task loop"""
+    rc, out = vf.sh(["timeout", "300", "coqc", "-Q", vf.COQ, "CMI", "-w", "none", "-o", os.path.join(d, "Extract_C01S.vo"),
+                     os.path.join(vf.COQ, "Extract", "Extract_C01S.v")], cwd=d, timeout=330)
+    ok2, log2 = (False, out) if rc != 0 else vf.ocaml_build(d, ["c01_source_model"], os.path.join(vf.VERIF, "ocaml/c01_source_driver.ml"), "srcmodel")
+    ok3, log3 = vf.cxx_build(os.path.join(vf.VERIF, "harness/c01/source_split_harness.cpp"), os.path.join(d, "srcimpl"), openmp=True,
+                             extra=["-Wl,--no-as-needed", "-lmpi_cxx", "-lmpi"])
+    if not (ok2 and ok3):
+        ck.breaks.append("source-side model/harness does not build:\n" + (log2 + log3)[-1500:])
+        return
+    rng = ck.rng
+    cases = []
+    def mk(nx, ny, nz, lv, N, cap, ncont, nblocks, srcs):
+        return "%d %d %d %s %d %d %d %d %d %s" % (nx, ny, nz, " ".join(map(str, lv)), N, cap, ncont, nblocks, len(srcs),
+                                                  " ".join("%.17g %.17g %.17g %.17g" % s for s in srcs))
+    # corpus: one source, remainder packets, copies, zero weight, packet numbers around multiples of the batch size
+    cases.append(mk(1, 1, 1, [0], 1, 200, 0, 1, [(0.5, 0.5, 0.5, 1.0)]))
+    cases.append(mk(1, 1, 1, [0], 400, 200, 400, 4, [(0.5, 0.5, 0.5, 1.0)]))
+    cases.append(mk(1, 1, 1, [2], 1001, 200, 450, 4, [(0.5, 0.5, 0.5, 1. / 3.), (0.25, 0.5, 0.5, 2. / 3.)]))
+    cases.append(mk(2, 1, 1, [1, 3], 777, 7, 13, 3, [(0.1, 0.5, 0.5, 0.3), (0.9, 0.5, 0.5, 0.3), (0.9, 0.1, 0.5, 0.4)]))
+    cases.append(mk(2, 2, 1, [0, 1, 0, 2], 5, 200, 0, 1, [(0.1, 0.1, 0.5, 0.5), (0.9, 0.9, 0.5, 0.5), (0.9, 0.1, 0.5, 0.0)]))
+    cases.append(mk(1, 1, 2, [3, 0], 3, 1, 2, 2, [(0.5, 0.5, 0.2, 1.0)]))
+    n = 150 if ck.quick else 1500
+    for _ in range(n):
+        nx, ny, nz = 1 + rng.below(3), 1 + rng.below(2), 1 + rng.below(2)
+        lv = [[0, 0, 1, 2, 3][rng.below(5)] for _ in range(nx * ny * nz)]
+        cap = [1, 2, 7, 50, 200, 200][rng.below(6)]
+        N = [rng.below(20) + 1, rng.below(3000) + 1, cap * (1 + rng.below(12)) + [-1, 0, 1][rng.below(3)]][rng.below(3)]
+        N = max(N, 1)
+        if cap <= 2:
+            N = min(N, 400)
+        ncont = [0, rng.below(1000), cap * rng.below(6)][rng.below(3)]
+        nblocks = 1 + rng.below(8)
+        ns = 1 + rng.below(5)
+        raw = [rng.below(1000) + (0 if rng.below(8) else 1) for _ in range(ns)]
+        if sum(raw) == 0:
+            raw[0] = 1
+        tot = float(sum(raw))
+        srcs = [(rng.uniform(), rng.uniform(), rng.uniform(), r / tot) for r in raw]
+        cases.append(mk(nx, ny, nz, lv, N, cap, ncont, nblocks, srcs))
+    text = "\n".join(cases) + "\n"
+    rci, outi = vf.run_lines([os.path.join(d, "srcimpl")], text, timeout=900)
+    impl = [l for l in outi if not l.startswith("SUBGRIDS")]
+    rcm, outm = vf.run_lines([os.path.join(d, "srcmodel")], "\n".join(outi) + "\n", timeout=300)
+    # split per case
+    def split(lines):
+        res, cur = [], None
+        for l in lines:
+            if l.startswith("CASE"):
+                cur = []
+                res.append(cur)
+            if cur is not None:
+                cur.append(l)
+        return res
+    A, B = split(impl), split(outm)
+    nbad = 0
+    hist = {"wrap": 0, "remainder_packets": 0, "copies": 0, "tasks": 0}
+    if rci != 0 or len(A) != len(cases):
+        ck.breaks.append("source-split harness failed (exit %d, %d of %d cases)" % (rci, len(A), len(cases)))
+    for k, a in enumerate(A):
+        b = B[k] if k < len(B) else []
+        f = {l.split()[0]: l.split()[1:] for l in a}
+        hist["wrap"] += "WRAP" in f
+        hist["remainder_packets"] += bool(f.get("DRAWS"))
+        hist["copies"] += any(l.startswith("SRC") and l.split()[2] != "1" for l in a)
+        hist["tasks"] += len(f.get("TASKS", [])) // 2
+        if a == b:
+            continue
+        nbad += 1
+        # oracle for the property on the real outputs
+        cs = cases[k].split()
+        nsub = int(cs[0]) * int(cs[1]) * int(cs[2])
+        N, cap, ncont = int(cs[3 + nsub]), int(cs[4 + nsub]), int(cs[5 + nsub])
+        why = None
+        if "TOTALS" in f:
+            tot = list(map(int, f["TOTALS"]))
+            tasks = list(map(int, f.get("TASKS", [])))[1::2]
+            done = f.get("DONE", ["-1"])
+            cont = list(map(int, f.get("CONT", [])))[1::2]
+            if sum(tot) != N:
+                why = "the per-copy totals of DistributedPhotonSource add up to %d, requested %d" % (sum(tot), N)
+            elif sum(tasks) != N or int(done[0]) != N:
+                why = "the discrete source tasks carry %d packets, requested %d" % (sum(tasks), N)
+            elif any(t < 1 or t > cap for t in tasks + cont):
+                why = "a source task has a batch size outside 1..%d" % cap
+            elif done[-2:] != ["EXTRA", "0"]:
+                why = "a source hands out packets after its total was reached"
+            elif sum(cont) != ncont:
+                why = "the continuous source tasks carry %d packets, requested %d" % (sum(cont), ncont)
+        if why:
+            ck.violation("C01 (source side): " + why, {"source_case": cases[k], "impl": a[:12], "model": b[:12]}, key={"kind": "source_split"})
+        elif nbad <= 3:
+            i = vf.first_diff(a, b)
+            ck.breaks.append("source-split model and DistributedPhotonSource differ on '%s': impl %r model %r" % (cases[k][:200], a[i] if i < len(a) else None, b[i] if i < len(b) else None))
+    ck.coverage["source_split"] = {"cases": len(cases), "mismatches": nbad, "histogram": hist}
+    return len(cases)
+
+
 def run(ck):
     res = guards(ck)
     if not ck.prove():
@@ -334,7 +432,11 @@ def run(ck):
         return
     exe = os.path.join(vf.REPOBUILD, "rundir", "CMacIonize")
     val = os.path.join(d, "validator")
+    nsrc = source_side(ck, d) or 0
     cfgs = configs(ck.quick)
+    if any(v["key"].get("kind") == "source_split" for v in ck.violations):
+        # the request is not split exactly: whole-binary runs would only hang; a few are enough to show it end to end
+        cfgs = cfgs[:2]
     results = []
     with ThreadPoolExecutor(max_workers=4) as ex:
         futs = [ex.submit(run_one, exe, val, d, c, tt) for c in cfgs]
@@ -372,7 +474,7 @@ def run(ck):
             else:
                 ck.breaks.append("trace of %s is not a run of the model: %s" % (r["name"], e))
     cov = ck.coverage
-    cov["evaluations"] = nlabels
+    cov["evaluations"] = nlabels + nsrc
     cov["distinct_nontrivial"] = len(sigs)
     cov["traces_validated_against_impl"] = sum(len(r["iterations"]) for r in results)
     cov["rule"] = ("evaluations = model steps replayed from hook traces of complete real runs (every fetch, task run, premature launch, termination test, exit of every thread of every iteration); "
